@@ -191,6 +191,7 @@ func runWorkloads(r *kit.Run, tag string, pal func() *workloads.Palette, rounds 
 			workloads.EVM(r, r.Rand(fmt.Sprintf("%s/evm/%s/%d", tag, name, round)), pal(), name, uint64(2000+round))
 		}
 		workloads.Extra(r, r.Rand(fmt.Sprintf("%s/extra/%d", tag, round)), pal())
+		workloads.RippleDest(r, r.Rand(fmt.Sprintf("%s/ripple-dest/%d", tag, round)), pal())
 	}
 }
 
